@@ -255,7 +255,7 @@ def gen_register(ctx, ver, actor, otype=None, want_mask=0):
             'obj': obj}
 
 
-def gen_derive(ctx, ver, actor):
+def gen_derive(ctx, ver, actor, refuse=0.15):
     r = ctx.rng
     base = ctx.pick_obj(['SymmetricKey', 'SecretData'])
     uids = [ctx.ref(base)]
@@ -268,7 +268,29 @@ def gen_derive(ctx, ver, actor):
     if r.random() < 0.7:
         params['data'] = ctx.rbytes(r.choice([4, 16]))
     otype = r.choice(['SymmetricKey', 'SymmetricKey', 'SecretData'])
-    at = [A('Cryptographic Length', r.choice([128, 128, 256, 100]))]
+    length = r.choice([128, 128, 256, 100])
+    if r.random() < refuse:
+        # a derivation the cryptographic back end refuses after the engine
+        # has fetched the base key: the failure path holds key material
+        y = r.choice(['iter0', 'iter_neg', 'no_salt', 'old_hash', 'too_long',
+                      'no_hash', 'no_data'])
+        if y in ('iter0', 'iter_neg', 'no_salt'):
+            method = 1
+            params = {'cp': {'hash': 6}, 'salt': ctx.rbytes(8),
+                      'iter': {'iter0': 0, 'iter_neg': -1}.get(y, 10)}
+            if y == 'no_salt':
+                params.pop('salt')
+        elif y == 'old_hash':
+            params['cp'] = {'hash': r.choice([1, 2, 3])}
+        elif y == 'too_long':
+            method = r.choice([3, 5])
+            params = {'cp': {'hash': 4}, 'data': ctx.rbytes(4)}
+            length = 8 * 20 * 256
+        elif y == 'no_hash':
+            params['cp'] = {'mode': 1}
+        else:
+            params.pop('data', None)
+    at = [A('Cryptographic Length', length)]
     if otype == 'SymmetricKey':
         at.append(A('Cryptographic Algorithm', 3))
     at += common_attrs(ctx, ver, otype)
